@@ -24,6 +24,8 @@ def enc(ns, v):
         return {"kind": "E"}
     if isinstance(v, ns.ExplainableHourlyQuantities):
         df = v.value
+        if not hasattr(df.index, "asi8"):
+            return {"kind": "X", "exc": "result-without-a-time-index"}     # e.g. aware and naive hours mixed in one index
         units = df.dtypes.iloc[0].units
         f = efx._base_factor(ns, units)
         vals = []
